@@ -320,6 +320,42 @@ def stable(R, ctx, roles):
          "graph type `%s` %s indices stable under remove_node while %s cache them" % (gtype.split("<")[0], "keeps" if stable_ else "does NOT keep", cached))
 
 
+def under_directory(R, ctx, rid="C10.under-directory"):
+    """Which work items a directory notification concerns: component-wise path prefix."""
+    from .. import peval
+    from ..pathmodel import PathV
+    lib = ctx.lib
+    R.rule(rid, "in the work tree's notification handlers, 'this item lies under the reported directory' is decided by std's component-wise "
+                "Path::starts_with, or by a local helper that -- evaluated from its typed tree with std::path's semantics -- agrees with it on "
+                "siblings sharing a textual prefix (`src/lib.lua`, `src/library/x.lua` are not under `src/lib`; `src/lib/a.lua` and `src/lib` are)")
+    tree = [f for f in lib.fn_list if thir.body_of(f) and "worker_tree" in (f.get("file") or "")]
+    is_path = lambda t: lib.ty_str(lib.strip_refs(t)) in ("std::path::Path", "std::path::PathBuf")
+    n_std, n_help, helpers = 0, 0, {}
+    for f in tree:
+        for c in thir.calls(f):
+            if len(c.get("args", [])) == 2 and all("t" in a and is_path(a["t"]) for a in c["args"]) and lib.ty_str(c.get("t")) == "bool":
+                cal = callee_of(c) or c.get("fn") or ""
+                if cal in lib.fns and thir.body_of(lib.fns[cal]):
+                    helpers[cal] = lib.fns[cal]
+                    n_help += 1
+                elif c.get("fname") == "starts_with" and "path::Path" in cal:
+                    n_std += 1
+    table = [("src/lib/a.lua", "src/lib", True), ("src/lib", "src/lib", True), ("src/lib/sub/b.lua", "src/lib", True), ("src/lib.lua", "src/lib", False),
+             ("src/library/x.lua", "src/lib", False), ("src/li", "src/lib", False), ("other/lib/a.lua", "src/lib", False), ("src/lib/a.lua", "src/lib/a.lua", True)]
+    for cal, h in sorted(helpers.items()):
+        bad = None
+        for item, d, want in table:
+            pe = peval.PEval(lib, ctx.an)
+            try:
+                got = pe.call_fn(h, [PathV(item), PathV(d)])
+            except peval.OutOfFuel:
+                got = None
+            if got is not want and bad is None:
+                bad = "`%s` under `%s`: %s expected, the helper gives %s %s" % (item, d, want, got, pe.unknown_reasons[:1] if not isinstance(got, bool) else "")
+        R.ob(rid, "%s|component-wise" % cal.split("::")[-1], bad is None, ctx.where(h), "agrees with Path::starts_with on %d pairs" % len(table) if bad is None else bad)
+    R.require(rid, "floor", n_std + n_help >= 2, "", "%d Path::starts_with decisions, %d decisions through %d local helpers on two paths" % (n_std, n_help, len(helpers)))
+
+
 def run(R, ctx):
     R.explanation = (
         "Necessary structural conditions of the incremental worker decided on MIR/THIR: fingerprint compared before work and over the "
@@ -341,3 +377,4 @@ def run(R, ctx):
     # the stale output of a removed source is scheduled for deletion whatever happened to the item since it was written
     from . import c11
     c11.deletion_list(R, ctx, rid="C10.delete", status_rid="C10.delete")
+    under_directory(R, ctx)
